@@ -132,6 +132,9 @@ def validate(ev):
 
 def write(pid, ev):
     d = os.path.join(boot.VERIF, "evidence")
+    if os.path.realpath(boot.REPO) != "/repo":
+        # a run against a scratch copy (mutant / seeded change) must never overwrite the evidence of /repo itself
+        d = os.environ.get("VERIF_EVIDENCE_DIR") or os.path.join(boot.scratch_root(), "evidence")
     os.makedirs(d, exist_ok=True)
     path = os.path.join(d, f"{pid}.json")
     tmp = path + ".tmp"
